@@ -120,8 +120,12 @@ class Topology:
     """
     retval = []
     for cc in self.connected_components():
-      gfa2 = self.clone
-      gfa2.rm(gfa2.segment_names - cc)
+      names = set(s.name for s in cc)
+      gfa2 = gfapy.Gfa(str(self), vlevel = self._vlevel,
+                       version = self._version, dialect = self._dialect)
+      for sn in list(gfa2.segment_names):
+        if sn not in names:
+          gfa2.rm(sn)
       retval.append(gfa2)
     return retval
 
